@@ -44,6 +44,27 @@ def Annot.textSafe (a : Annot) : Bool :=
 def SMDom.textSafe (d : SMDom) : Bool :=
   fitsFormat smFmt [d.name.toList, d.evalue.toList, d.bitscore.toList, d.nseeds.toList, d.tool.toList]
 
+/-- a type II PKS annotation as the constructor accepts it (a starter unit; elongations and weights together),
+    with distinct weight keys (a dictionary) whose texts fit the weight format -/
+def T2.wf (t : T2) : Bool :=
+  !t.starters.isEmpty && (t.elongations.isEmpty == t.weights.isEmpty) && decide (t.weights.map (·.1)).Nodup &&
+  t.weights.all (fun e => fitsFormat t2WeightFmt [e.1.toList, e.2.toList])
+
+/-- `": " in text` -/
+def hasColonSpace : List Char → Bool
+  | [] => false
+  | c :: rest => (c == ':' && rest.head? == some ' ') || hasColonSpace rest
+
+/-- Pfam data that reads back: a non-empty description, `PF` + five digits, a version that is not 0, gene ontology
+    terms (if the qualifier object is there at all it has at least one) with distinct ids without `: ` -/
+def PfamX.wf (p : PfamX) : Bool :=
+  !p.description.isEmpty &&
+  (p.identifier.toList.length == 7 && p.identifier.toList.take 2 == ['P', 'F'] && (p.identifier.toList.drop 2).all Char.isDigit) &&
+  p.version != some 0 &&
+  match p.go with
+  | some g => !g.isEmpty && decide (g.map (·.1)).Nodup && g.all (fun e => !hasColonSpace e.1.toList)
+  | none => true
+
 /-- the keys the domain / motif classes write themselves -/
 def domKeysB : List String :=
   ["aSTool", "locus_tag", "protein_start", "protein_end", "aSDomain", "ASF", "domain_id", "database", "detection", "label",
